@@ -373,6 +373,9 @@ func runC08(c *Collector) {
 		for len(frontier) > 0 && !c.expired() {
 			var next []node
 			for _, nd := range frontier {
+				if c.expired() {
+					break
+				}
 				w, canon, obs, v := ixReplay(keys, sp.bits, sp.fileSz, nd.hist)
 				c.res.Evaluations++
 				c.res.Transitions++
